@@ -410,9 +410,38 @@ def selftest_values(ctx: Ctx, recs: List[Dict[str, Any]]) -> None:
 # =============================================================================================
 # C04: the axioms replayed on the implementation itself (pairs and magnitudes TLC's lattice cannot hold)
 # =============================================================================================
+def mixed_magnitudes(ctx: Ctx) -> None:
+    """Samples whose outcomes differ by eight orders of magnitude (a few huge gains next to small losses), float32 and float64:
+    expected shortfall and value at risk are order statistics - they select outcomes, they do not compute them by difference - so the
+    bounds, the definition and the monotonicity in p hold to the precision of the SELECTED outcomes."""
+    import pfhedge.nn.functional as F
+    import pfhedge.nn as nn
+    from fractions import Fraction as Fr
+    import math as _m
+    base = [0.01, 0.02, 0.03, 0.04, 0.05, 0.06, 0.07, 1e6, 1e6, 1e6]
+    for dtype in (torch.float32, torch.float64):
+        for sample in (base, [-v for v in base], base[:7] + [3e5, 5e5, 1e6]):
+            x = torch.tensor(sample, dtype=dtype)
+            xs = sorted(Fr(float(v)) for v in x.tolist())
+            prev = None
+            for p in (0.1, 0.3, 0.5, 0.6, 0.7, 0.9, 1.0):
+                k = _m.ceil(p * len(xs))
+                want = float(-sum(xs[:k]) / k)
+                tol = 4 * torch.finfo(dtype).eps * max(abs(want), max(abs(float(v)) for v in xs[:k]))
+                for label, got in (("functional dim=0", F.expected_shortfall(x[:, None], p, dim=0)[0]), ("functional", F.expected_shortfall(x, p)), ("module", nn.ExpectedShortfall(p)(x))):
+                    ctx.count(n=1)
+                    if not (abs(got.item() - want) <= tol):
+                        ctx.violation("es:mixed-magnitudes", f"expected shortfall ({label}) of a sample with outcomes of very different magnitude is not minus the mean of the ceil(pN) worst outcomes",
+                                      {"sample": sample, "p": p, "dtype": str(dtype), "expected": want, "observed": got.item()})
+                if prev is not None and want > prev[1] + 1e-30:
+                    raise MachineryError("reference expected shortfall not monotone in p")
+                prev = (p, want)
+
+
 def axiom_replay(ctx: Ctx, pairs: List[Dict[str, Any]], seed: int) -> None:
     import pfhedge.nn.functional as F
     import pfhedge.nn as nn
+    mixed_magnitudes(ctx)
 
     byN: Dict[int, List[Dict[str, Any]]] = defaultdict(list)
     for r in pairs:
